@@ -20,6 +20,12 @@
 (*              content model's automaton and every cycle taken twice, in  *)
 (*              order, then to_string (C02)                                 *)
 (*   "wordrem"  such a word, then one removal, then to_string (C11, C06)    *)
+(*   "wordedit" a short such word, to_string, one edit (replace by another   *)
+(*              name, remove, add), to_string (C01, C16: nothing remembered  *)
+(*              from the first serialisation survives the edit)              *)
+(*   "twoslot"  two children of one name placed in two different slots of   *)
+(*              the content model (forward), the later slot first, then one *)
+(*              shortcut / explicit operation on them, then to_string (C15)  *)
 (***************************************************************************)
 EXTENDS SchemaDerived, Report, Naturals, Sequences, FiniteSets
 
@@ -73,13 +79,14 @@ PlanWords(t) == LET M == ModelFor(t).A  st == PlanStrideOf[t]
                 IN {x \in WordsOfPaths(M, EdgeCoverPathsS(M, st) \cup PumpPathsS(M, st)) : Len(x) <= PlanLen}
 
 Init == /\ T \in Types /\ Chk \in Chks /\ Family \in Families
-        /\ (Family \in {"perms", "removal", "afterfail", "wordrem"} => Chk)   \* valid words are also supplied to unchecked elements (C18: same bytes)
+        /\ (Family \in {"perms", "removal", "afterfail", "wordrem", "wordedit", "twoslot"} => Chk)   \* valid words are also supplied to unchecked elements (C18: same bytes)
         /\ ins = <<>> /\ hist = <<>> /\ rare = 0
-        /\ plan \in (IF Family \in {"cover", "wordrem"} THEN PlanWords(T) ELSE {<<>>})
+        /\ plan \in (IF Family \in {"cover", "wordrem"} THEN PlanWords(T)
+                      ELSE IF Family = "wordedit" THEN {x \in PlanWords(T) : Len(x) <= 4} ELSE {<<>>})
 Fixed == UNCHANGED <<T, Chk, Family, plan>>
 
 AddOp(a, f) ==
-  /\ (Family \in {"cover", "wordrem"} \/ Count(ins, a) < MaxPerSym)
+  /\ (Family \in {"cover", "wordrem", "wordedit"} \/ Count(ins, a) < MaxPerSym \/ ~ExpectAdd(a))   \* one more than allowed is always offered
   /\ LET ok == ExpectAdd(a) IN
      /\ ins' = IF ok THEN Append(ins, a) ELSE ins
      /\ hist' = Append(hist, [op |-> "add", sym |-> a, fwd |-> f, idx |-> 0, ic |-> FALSE,
@@ -107,6 +114,11 @@ ToStr(ic) ==
   /\ hist' = Append(hist, [op |-> "tostring", sym |-> "", fwd |-> NoFwd, idx |-> 0, ic |-> ic,
                           exp |-> IF ~Chk \/ Accepts(A, ins) THEN "maybe-ok" ELSE "any"])
   /\ rare' = IF ic THEN rare + 1 ELSE rare
+\* a final check the specification expects to FAIL: no arrangement of the children is a word of the content model
+ToStrRej ==
+  /\ Chk /\ Arrangements(A, ins) = {}
+  /\ UNCHANGED <<ins, rare>>
+  /\ hist' = Append(hist, [op |-> "tostring", sym |-> "", fwd |-> NoFwd, idx |-> 0, ic |-> FALSE, exp |-> "reject"])
 DotElem(a) ==
   /\ IF Count(ins, a) > 0 THEN ins' = ins
      ELSE ins' = IF ExpectAdd(a) THEN Append(ins, a) ELSE ins
@@ -160,6 +172,18 @@ WordRem ==
      ELSE IF Len(hist) = Len(plan) THEN \E i \in DOMAIN ins : RemoveOp(i)
      ELSE ToStr(FALSE)
 
+\* wordedit: a short valid word supplied in order and serialised, then ONE edit -- a child replaced by one of another
+\* name, a child removed, a child added --, then to_string again: the second serialisation is judged like any other
+\* (C01: what it returns is valid) and against the same history without the first one (C16)
+WordEdit ==
+  IF Len(hist) < Len(plan) THEN AddOp(plan[Len(hist) + 1], NoFwd)
+  ELSE IF Len(hist) = Len(plan) THEN ToStr(FALSE)
+  ELSE IF Len(hist) = Len(plan) + 1
+       THEN \/ \E i \in DOMAIN ins : \E a \in RareSigma \ {ins[i]} : ReplaceOp(i, a)
+            \/ \E i \in DOMAIN ins : RemoveOp(i)
+            \/ \E a \in RareSigma : AddOp(a, NoFwd)
+       ELSE Len(hist) = Len(plan) + 2 /\ ToStr(FALSE)
+
 \* removal: up to RemAdds accepted adds (names of RemSigma), then exactly one removal, then one probe
 Removed == \E j \in DOMAIN hist : hist[j].op = "remove"
 Removal ==
@@ -172,7 +196,8 @@ Removal ==
        ELSE hist[Len(hist)].op = "add" /\ hist[Len(hist) - 1].op = "remove" /\ ToStr(FALSE)   \* and what it serialises to
 
 \* afterfail: up to two accepted adds, then one call the specification expects to be REFUSED (an add, a
-\* replace_child by another name, a dot assignment), then any one operation, then to_string  (C10: what follows a
+\* replace_child by another name, a dot assignment, a to_string of children that cannot be arranged into a valid
+\* word), then any one operation (after a refused to_string: an add of any name), then to_string  (C10: what follows a
 \* failed call behaves as if it had never been made -- including a second replace / remove of an untouched child)
 Failed == \E j \in DOMAIN hist : hist[j].exp = "reject"
 FailIdx == CHOOSE j \in DOMAIN hist : hist[j].exp = "reject" /\ \A k \in 1..(j - 1) : hist[k].exp # "reject"
@@ -182,14 +207,29 @@ AfterFail ==
        \/ (Len(hist) >= 1 /\ \E a \in Sigma : ~ExpectAdd(a) /\ AddOp(a, NoFwd))
        \/ (\E i \in DOMAIN ins : \E a \in RareSigma : ~ExpectReplace(i, a) /\ ReplaceOp(i, a))
        \/ (Len(hist) >= 1 /\ \E a \in RareSigma : Count(ins, a) = 0 /\ ~ExpectAdd(a) /\ DotElem(a))
+       \/ (Len(hist) >= 1 /\ ToStrRej)
   ELSE IF Len(hist) = FailIdx           \* exactly one operation of any kind right after the refused call
-  THEN \/ (\E a \in RareSigma : AddOp(a, NoFwd))
+  THEN \/ (\E a \in (IF hist[FailIdx].op = "tostring" THEN Sigma ELSE RareSigma) : AddOp(a, NoFwd))
        \/ (\E i \in DOMAIN ins : \E a \in RareSigma \cup {ins[i]} : ReplaceOp(i, a))      \* incl. a same-name replace of every child
        \/ (\E i \in DOMAIN ins : RemoveOp(i))
        \/ (\E a \in RareSigma : DotElem(a))
        \/ (\E a \in RareSigma : DotNone(a))
        \/ ToStr(FALSE)
   ELSE Len(hist) = FailIdx + 1 /\ hist[Len(hist)].op # "tostring" /\ ToStr(FALSE)
+
+\* twoslot: two children of one name in two different slots (the first call forwards), then one operation that
+\* addresses "the child of that name" -- a dot assignment of an element or of None, an explicit replace / remove of
+\* either child -- then to_string.  The shortcut and the explicit call must pick the same child (C15).
+TwoSlot ==
+  /\ ~Ended
+  /\ IF Len(hist) = 0 THEN \E a \in Multi : \E f \in 0..(LeafCount(a) - 1) : AddOp(a, f)
+     ELSE LET a == hist[1].sym IN
+          IF Len(hist) = 1 THEN \/ AddOp(a, NoFwd)
+                                \/ \E f \in 0..(LeafCount(a) - 1) : f # hist[1].fwd /\ AddOp(a, f)
+          ELSE IF Len(hist) = 2 THEN \/ DotElem(a) \/ DotNone(a) \/ ToStr(FALSE)
+                                     \/ \E i \in DOMAIN ins : RemoveOp(i)
+                                     \/ \E i \in DOMAIN ins : ReplaceOp(i, a)
+          ELSE ToStr(FALSE)
 
 Next == /\ Fixed
         /\ CASE Family = "uniform" -> Uniform
@@ -199,6 +239,8 @@ Next == /\ Fixed
              [] Family = "cover" -> Cover
              [] Family = "afterfail" -> AfterFail
              [] Family = "wordrem" -> WordRem
+             [] Family = "twoslot" -> TwoSlot
+             [] Family = "wordedit" -> WordEdit
 Spec == Init /\ [][Next]_vars
 
 \* a behaviour is emitted at the leaves of the exploration (interior nodes are prefixes of leaves)
@@ -208,6 +250,8 @@ Leaf == CASE Family = "uniform" -> Len(hist) = Depth
           [] Family = "removal" -> Removed /\ Ended
           [] Family = "cover" -> Ended
           [] Family = "wordrem" -> Ended
+          [] Family = "twoslot" -> Ended
+          [] Family = "wordedit" -> Len(hist) = Len(plan) + 3
           [] Family = "afterfail" -> Failed /\ Len(hist) > FailIdx /\ (Ended \/ Len(hist) = FailIdx + 2)
 Emit == Leaf => Report([type |-> T, chk |-> Chk, fam |-> Family, ops |-> hist])
 ====
